@@ -589,7 +589,11 @@ func encodeInfoElementValueToBuff(element InfoElementWithValue, buffer []byte, i
 		// TODO: RFC 7011 has extra spec for these data types. Need to follow that
 		return fmt.Errorf("API does not support micro and nano seconds types yet")
 	case MacAddress:
-		copy(buffer[index:], element.GetMacAddressValue())
+		macAddr := element.GetMacAddressValue()
+		if len(macAddr) != 6 {
+			return fmt.Errorf("invalid value for MAC address: length is %d instead of 6", len(macAddr))
+		}
+		copy(buffer[index:], macAddr)
 	case Ipv4Address:
 		if ipv4Add := element.GetIPAddressValue().To4(); ipv4Add != nil {
 			copy(buffer[index:], ipv4Add)
